@@ -167,6 +167,11 @@ POSITIONS = [
     ("filter-callback", "let r = filter(func (i) => @E@ == i, [41]).0;"),
     ("reduce-callback", "let r = reduce(func (acc, i) => @E@ + acc + i, 0, [0]);"),
     ("map-target", "let r = map(func (i) => i, [@E@]).0;"),
+    ("filter-target", "let r = filter(func (i) => true, [@E@]).0;"),
+    ("reduce-target", "let r = reduce(func (acc, i) => acc + i, 0, [@E@]);"),
+    ("map-target-bare", "let r = map(func (k, v) => [k, v], @I@).v;"),
+    ("filter-target-bare", "let r = filter(func (k, v) => true, @I@).v;"),
+    ("reduce-target-bare", "let r = reduce(func (acc, k, v) => acc + v, 0, @I@);"),
     ("reduce-accumulator", "let r = reduce(func (acc, i) => acc + i, @E@, [0]);"),
     ("fail-message-in-uncalled-function", "let f = func () => fail \"no @\" % (@E@);\nlet r = 41;"),
     ("fail-message-in-unused-default", "let r = select (\"a\", fail \"no @\" % (@E@)) => {a = 41};"),
@@ -297,7 +302,7 @@ DECOY_LAYOUTS = [
 ]
 
 
-def decoy_project(layout, spell_main, spell_b, kind):
+def decoy_project(layout, spell_main, spell_b, kind, main_reads_decoy=False):
     main, b, c = layout
     rel_bc = relpath(b, c)
     files = {}
@@ -312,7 +317,11 @@ def decoy_project(layout, spell_main, spell_b, kind):
     files[b] = "let t = TRACE 101;\n" + use_c
     rel_mb = relpath(main, b)
     use_b = ('let b = import "%s";\nlet n = b.n;\n' % rel_mb) if spell_main == "let" else ('let n = (import "%s").n;\n' % rel_mb)
-    files[main] = "let t = TRACE 100;\n" + use_b + "out json {n = n};\n"
+    own = ""
+    if main_reads_decoy and not os.path.normpath(os.path.join(os.path.dirname(main), rel_bc)).startswith(".."):
+        # main reads, under the very spelling B uses for C, the file that spelling names from main's directory
+        own = ('let own = import "%s";\nlet ownv = own.val;\n' % rel_bc) if kind == "import" else ('let ownv = include str "%s";\n' % rel_bc)
+    files[main] = "let t = TRACE 100;\n" + own + use_b + "out json {n = n};\n"
     # the decoys: the same relative path read against main's directory, the project root and a sub-directory used as cwd
     for base in (os.path.dirname(main), "", "cwd"):
         dp = os.path.normpath(os.path.join(base, rel_bc))
@@ -324,11 +333,13 @@ def decoy_project(layout, spell_main, spell_b, kind):
 def work_decoys(chunk):
     hist = {}
     viol = []
-    for li, spell_main, spell_b, kind in chunk:
+    for item in chunk:
+        li, spell_main, spell_b, kind = item[:4]
+        reads = len(item) > 4 and item[4]
         layout = DECOY_LAYOUTS[li]
         d = tempfile.mkdtemp(prefix="ucgverif-c09-")
         try:
-            files = decoy_project(layout, spell_main, spell_b, kind)
+            files = decoy_project(layout, spell_main, spell_b, kind, reads)
             write_project(d, files)
             os.makedirs(os.path.join(d, "cwd"), exist_ok=True)
             bad = None
@@ -340,15 +351,67 @@ def work_decoys(chunk):
                     bad = "valid-project-fails"
                 elif not isinstance(val, dict) or val.get("n") != "real-b":
                     bad = "wrong-value"
-                elif "TRACE: 666" in err:
+                elif "TRACE: 666" in err and not reads:
                     bad = "decoy-evaluated"
                 if bad:
                     break
             k = "decoy-%s:%s" % (kind, "agrees" if bad is None else "VIOLATION")
             hist[k] = hist.get(k, 0) + 1
             if bad:
-                viol.append(("decoy:%s:%s:%s:%s" % (kind, "main-" + spell_main, "b-" + spell_b, bad), {"decoy_layout": li, "spell_main": spell_main, "spell_b": spell_b, "kind": kind},
+                viol.append(("decoy:%s:%s:%s:%s%s" % (kind, "main-" + spell_main, "b-" + spell_b, bad, ":main-reads-decoy-too" if reads else ""),
+                             {"decoy_layout": li, "spell_main": spell_main, "spell_b": spell_b, "kind": kind, "main_reads_decoy": reads},
                              {"rc": rc, "value": val, "stderr": err[-400:], "files": sorted(files)}))
+        finally:
+            shutil.rmtree(d, ignore_errors=True)
+    return {"evals": len(chunk) * 3, "hist": hist, "viol": viol}
+
+
+# (e) mod.pkg(): a module's handle on the file that defines it is an import of that file. Used while
+# that file is still being evaluated it closes a cycle, which must be reported like any other.
+PKG_MODULE = "let secret = 7;\nlet m = module {} => (r) {\n    let r = mod.pkg().secret;\n};\n"
+PKG_CASES = {
+    "defining-file-instantiates-at-top-level": ({"main.ucg": PKG_MODULE + "let v = m{};\nout json {v = v};\n"}, "cycle"),
+    "imported-file-instantiates-at-its-top-level": ({"lib/l.ucg": PKG_MODULE + "let v = m{};\n", "main.ucg": 'let l = import "./lib/l.ucg";\nout json {v = l.v};\n'}, "cycle"),
+    "imported-file-instantiates-at-its-top-level-inline": ({"lib/l.ucg": PKG_MODULE + "let v = m{};\n", "main.ucg": 'out json {v = (import "./lib/l.ucg").v};\n'}, "cycle"),
+    "importer-instantiates": ({"lib/l.ucg": PKG_MODULE, "main.ucg": 'let l = import "./lib/l.ucg";\nlet mm = l.m;\nout json {v = mm{}};\n'}, 7),
+    "importer-instantiates-twice": ({"lib/l.ucg": PKG_MODULE, "main.ucg": 'let l = import "./lib/l.ucg";\nlet mm = l.m;\nlet a = mm{};\nout json {v = mm{} + a - a};\n'}, 7),
+    "importer-of-importer-instantiates": ({"lib/l.ucg": PKG_MODULE, "mid.ucg": 'let l = import "./lib/l.ucg";\nlet mm = l.m;\n',
+                                           "main.ucg": 'let k = import "./mid.ucg";\nlet mm = k.mm;\nout json {v = mm{}};\n'}, 7),
+    "defining-file-instantiates-inside-uncalled-function": ({"main.ucg": PKG_MODULE + "let f = func () => m{};\nout json {v = 7};\n"}, 7),
+}
+
+
+def work_pkg(chunk):
+    hist = {}
+    viol = []
+    for name in chunk:
+        files, want = PKG_CASES[name]
+        d = tempfile.mkdtemp(prefix="ucgverif-c09-")
+        try:
+            write_project(d, files)
+            os.makedirs(os.path.join(d, "lib"), exist_ok=True)
+            bad = None
+            for cwd in (d, os.path.join(d, "lib"), "/"):
+                rc, err, val = build(d, "main.ucg", cwd)
+                if rc is None:
+                    bad = "timeout"
+                elif rc not in (0, 1):
+                    bad = "exit-status-%s" % rc
+                elif want == "cycle":
+                    if rc != 1:
+                        bad = "cycle-not-reported"
+                    elif "cycle" not in err.lower():
+                        bad = "cycle-diagnostic-missing"
+                elif rc != 0:
+                    bad = "valid-project-fails"
+                elif not isinstance(val, dict) or val.get("v") != want:
+                    bad = "wrong-value"
+                if bad:
+                    break
+            k = "pkg:%s" % ("agrees" if bad is None else "VIOLATION")
+            hist[k] = hist.get(k, 0) + 1
+            if bad:
+                viol.append(("pkg:%s:%s" % (name, bad), {"pkg_case": name}, {"rc": rc, "value": val, "stderr": err[-400:]}))
         finally:
             shutil.rmtree(d, ignore_errors=True)
     return {"evals": len(chunk) * 3, "hist": hist, "viol": viol}
@@ -403,7 +466,10 @@ def run(ctx):
         absorb(part)
     decoys = [(li, sm, sb, kind) for li in range(len(DECOY_LAYOUTS)) for sm in ("let", "inline") for sb in ("let", "inline") for kind in ("import", "include")
               if not (kind == "include" and sb == "inline")]
+    decoys += [x + (True,) for x in decoys if DECOY_LAYOUTS[x[0]][0] == "main.ucg" or True]
     for part in core.pmap(work_decoys, decoys, chunk=2):
+        absorb(part)
+    for part in core.pmap(work_pkg, list(PKG_CASES), chunk=1):
         absorb(part)
     ctx.sample({"graph": {"n": 2, "edges": [[0, 1], [1, 0]], "spelling": "inline"}, "model": "exit 1, diagnostic mentions the cycle"})
     ctx.sample({"position": "map-callback", "source": 'let r = map(func (i) => (import "./d/lib.ucg").v + i, [0]).0;', "cwds": ["p", "p/d", "/"]})
@@ -424,8 +490,10 @@ def replay(case):
     elif "position" in c:
         tpl = dict(POSITIONS)[c["position"]]
         part = work_positions([(c["position"], tpl, c["kind"], c["spelling"])])
+    elif "pkg_case" in c:
+        part = work_pkg([c["pkg_case"]])
     elif "decoy_layout" in c:
-        part = work_decoys([(c["decoy_layout"], c["spell_main"], c["spell_b"], c["kind"])])
+        part = work_decoys([(c["decoy_layout"], c["spell_main"], c["spell_b"], c["kind"], c.get("main_reads_decoy", False))])
     else:
         part = work_diamonds([tuple(c["spellings"])])
     return not part["viol"], {"violations": part["viol"]}
